@@ -530,7 +530,17 @@ def eq_reflexive(ck, prog):
                 adt = re.sub(r"<.*$", "", (b.impl_self or (parent.impl_self if parent is not None else "") or b.name) or "").split("::")[-1]
                 inst = f"{adt}::eq: tolerance of `{render(L)[:50]}` admits identical values"
                 kind, data = _positivity(R)
+                # "model data" = the bound mentions a field / element, or one of the very values being compared; a separate scalar
+                # parameter (the `error` argument of approximate_eq) is a tolerance, not data
+                leavesL = {(x[0], x[1]) for x in subterms(L) if x[0] == "arg"}
+                data = any(x[0] in ("field", "idx") for x in subterms(R)) or any((x[0], x[1]) in leavesL for x in subterms(R) if x[0] == "arg")
                 strict = rel in ("<", ">=")            # partition {diff < bound} / {diff >= bound}: equality of diff and bound is 'different'
+                if not strict and data and kind not in ("P", "NN"):
+                    ck.violation(rule, inst, b.path, c.where, ordinal=n,
+                                 expected="a bound that is never negative, so that |a - a| = 0 does not exceed it",
+                                 found=f"`|a - b| {rel} {render(R)[:70]}`: the bound depends on model values and can be negative (no abs / max around "
+                                       f"it), so a model containing a negative such value is not equal to itself or to its restored copy")
+                    continue
                 if strict and data and kind != "P":
                     ck.violation(rule, inst, b.path, c.where, ordinal=n,
                                  expected="a strictly positive bound (or a non-strict comparison) so that |a - a| = 0 passes",
@@ -550,3 +560,58 @@ EXPLANATION += (" Reflexivity (E5-eq-reflexive): in the hand-written eq function
                 "every strict tolerance test |a - b| < bound has a bound that is strictly positive for every input (epsilon(), positive "
                 "constants, sums/products/max of those); a bound that reads the compared values and is only non-negative vanishes for "
                 "a == b == 0 and makes a model unequal to its own restored copy.")
+
+
+# ------------------------------------------------------------------ equality walks whole vectors
+_run_pre_whole = run
+
+
+def eq_walks_whole(ck, prog):
+    """'it does not equal a model fitted on different rows and targets': an index loop of a hand-written eq that compares
+    self.F[i] with other.F[i] ranges over 0..len(F); a loop bounded by another quantity (a hyper-parameter such as k) compares
+    a prefix only. Positive identification: the loop variable indexing F is the variable of 0..H with H a field of self /
+    other that is not a length of F."""
+    from sa.match import dim_of
+    rule = "E5-eq-lengths"
+    for b in sorted(prog.bodies.values(), key=lambda b: b.path):
+        if not (b.impl_trait == "std::cmp::PartialEq" and b.name == "eq" and b.loc and b.loc[0].startswith("src/")):
+            continue
+        cx = BodyCtx.of(b)
+        seen = set()
+        for c in cx.cmps:
+            for side in (c.lhs, c.rhs):
+                for s in subterms(side):
+                    if not (s[0] == "idx" and s[1][0] == "field" and s[1][1][0] == "arg"):
+                        continue
+                    F = s[1][2]
+                    ix = s[2]
+                    if not (ix[0] == "field" and ix[2] == "0" and ix[1][0] == "variant"):
+                        continue
+                    nx = ix[1][1]
+                    if not (nx[0] == "call" and nx[1].endswith("Iterator::next") and nx[2]):
+                        continue
+                    for a in alts(nx[2][0]):
+                        if a[0] == "agg" and a[1].endswith("Range::Range"):
+                            H = a[2][1]
+                            key = (F, render(H))
+                            if key in seen:
+                                continue
+                            seen.add(key)
+                            d = dim_of(H)
+                            adt = re.sub(r"<.*$", "", b.impl_self or "").split("::")[-1]
+                            inst = f"{adt}::eq walks all of `{F}`"
+                            whole = bool(d) and d[0] == "len"
+                            other_field = H[0] == "field" and H[1][0] == "arg" and H[2] != F
+                            if other_field and not whole:
+                                ck.violation(rule, inst, b.path, c.where, expected=f"0..len({F})",
+                                             found=f"the loop comparing `{F}` element by element runs over 0..{render(H)}: only a prefix takes part in equality")
+                            elif whole:
+                                ck.ok(rule, inst, b.path, c.where, f"0..{render(H)[:40]}")
+
+
+def run(ck, prog):
+    _run_pre_whole(ck, prog)
+    eq_walks_whole(ck, prog)
+
+
+EXPLANATION += (' Equality is also required to walk whole vectors (an index loop over F runs to len(F), not to another field) and, for non-strict tolerance tests, to use a bound that is never negative.')
